@@ -859,7 +859,19 @@ func (c *Ctx) ruleReadFileErr() {
 	for _, fn := range P.ModFuncs {
 		allInstrs(fn, func(b *ssa.BasicBlock, ins ssa.Instruction) {
 			ci, ok := ins.(*ssa.Call)
-			if !ok || c.passFieldCall(ci) != "ReadFile" {
+			if !ok {
+				return
+			}
+			// the analyzers read files through the driver (pass.ReadFile: only files of the package, a plain read); a
+			// direct open of a name taken from a position - which a //line directive chooses - can block (a pipe, a
+			// device) or read anything. Package main may read its own executable.
+			if cal := ci.Call.StaticCallee(); cal != nil && !(fn.Pkg != nil && fn.Pkg.Pkg.Name() == "main") {
+				switch FuncName(cal) {
+				case "os.ReadFile", "os.Open", "os.OpenFile", "io/ioutil.ReadFile":
+					c.fail("DIRECT-IO", FuncName(fn)+"#"+FuncName(cal), P.Pos(ci.Pos()), "a file is opened directly ("+FuncName(cal)+") instead of through pass.ReadFile: the name may come from a //line directive (a pipe or a device blocks the analysis; C10: no hang)")
+				}
+			}
+			if c.passFieldCall(ci) != "ReadFile" {
 				return
 			}
 			n++
